@@ -68,6 +68,9 @@ var provTemplates = []struct {
 	{"typed-arg", "typed(%s)", true}, {"to-go-string", "import(\"strings\").ToUpper(%s)", false},
 	{"var-then-neg", "var t = %s\n-t", true}, {"var-then-index", "var t = %s\nt[0]", true},
 	{"forin-elem-neg", "for t in [%s] { probe(-t) }", true},
+	// the address of a variable the value was bound to, and a field store into a bound struct value
+	{"param-addr", "func(p) {\nq = &p\n*q = 5\nreturn p\n}(%s)", false}, {"var-addr", "var t = %s\nq = &t\n*q = 5\nt", false},
+	{"bound-struct-field-store", "x = %s\nx.A = 2\nx.A", false},
 	// the value bound to a variable by every kind of binding, then used as a bare identifier operand
 	{"param-add", "func(p) { return p + p }(%s)", true}, {"param-mul", "func(p) { return p * 2 }(%s)", true}, {"param-sub", "func(p) { return p - 1 }(%s)", true},
 	{"param-concat", "func(p) { return p + \"s\" }(%s)", true}, {"param-repeat", "func(p) { return \"ab\" * p }(%s)", true}, {"param-append", "func(p) { return p + 3 }(%s)", true},
@@ -111,7 +114,7 @@ func provValues() map[string]interface{} {
 		"vgofn": func(x ...interface{}) int64 { return int64(len(x)) },
 		"vchan": ch, "vptr": &seven, "vdur": 1500 * time.Nanosecond, "vurl": url.Values{"k": {"v"}}, "vcel": provCelsius(100), "vmapnil": map[interface{}]interface{}{"k": nil}, "vone": int64(1), "vbig": int64(9007199254740993),
 		// typed nil values: nil whatever wrapper they travel in
-		"vnilmapT": map[string]int64(nil), "vnilsliceT": []int64(nil), "vnilptrT": (*int64)(nil), "vnilfuncT": (func())(nil), "vnilchanT": (chan int64)(nil), "vbig0": int64(9007199254740992),
+		"vstruct": struct{ A int64 }{1}, "vnilmapT": map[string]int64(nil), "vnilsliceT": []int64(nil), "vnilptrT": (*int64)(nil), "vnilfuncT": (func())(nil), "vnilchanT": (chan int64)(nil), "vbig0": int64(9007199254740992),
 	}
 }
 
@@ -134,7 +137,7 @@ func streamProv(o *Out, r *rand.Rand, n int, thorough bool) {
 				Detail: fmt.Sprintf("calls that reached another function than their operand evaluated to: %v (err %v, panic %v)", out.val, out.err, out.panicVal)})
 		}
 	}
-	valNames := []string{"vint", "vfloat", "vstr", "vbool", "vnil", "vzero", "vlist", "vmap", "vfn", "vgofn", "vchan", "vptr", "vone", "vbig", "vbig0", "vdur", "vurl", "vcel", "vmodule", "vmapnil", "vnilmapT", "vnilsliceT", "vnilptrT", "vnilfuncT", "vnilchanT"}
+	valNames := []string{"vint", "vfloat", "vstr", "vbool", "vnil", "vzero", "vlist", "vmap", "vfn", "vgofn", "vchan", "vptr", "vone", "vbig", "vbig0", "vdur", "vurl", "vcel", "vmodule", "vmapnil", "vstruct", "vnilmapT", "vnilsliceT", "vnilptrT", "vnilfuncT", "vnilchanT"}
 	run := func(src string) (vmResult, bool) {
 		stmt, err := parser.ParseSrc(src)
 		if err != nil {
